@@ -28,6 +28,7 @@
      skel <prog>            → per function `|`-separated skeleton of `flatten body` (`c<N>` `j<N>` `r<N>` `x`)
      blk  <intr> <edges> <seed>  → sorted blocking set computed by the propagation loop under a seed-permuted order
      box  <blocking> <items>     → `GV.Escape.boxed` for each `site.captured` item
+     guard <depth> <pos>         → `GV.RetDefer.guardAnywhere`: `save` / `throw:null` (head of `$callDeferred`)
 -/
 import GV.Model.Ctrl
 import GV.Model.Flat
@@ -366,6 +367,13 @@ def handle : List String → String
       | [st, cap] => if GV.Escape.boxed bl (site st) (cap == 1) then "1" else "0"
       | _ => "?"
     if rs.isEmpty then "-" else ",".intercalate rs
+  | ["guard", depth, pos] =>
+    -- the guard of `$callDeferred` for an asleep goroutine: deferStack of `depth` lists (ids 0 = bottom … depth-1 = top),
+    -- the leaving function's own list at index `pos` or `absent` (id 99)
+    let n := depth.toNat?.getD 0
+    let stack := (List.range n).reverse
+    let own := if pos == "absent" then 99 else pos.toNat?.getD 99
+    if GV.RetDefer.guardAnywhere stack own then "save" else "throw:null"
   | _ => "bad-op"
 
 end GV.Driver.C02
